@@ -42,7 +42,7 @@ def main():
 
 
 def evaluate(wt, out, sid, prop, checks):
-    env = dict(os.environ, PYTHONPATH=str(wt), PDQ_REPO=str(wt), JAX_PLATFORMS="cpu")
+    env = dict(os.environ, PYTHONPATH=str(wt), PDQ_REPO=str(wt), JAX_PLATFORMS="cpu", PDQ_EVIDENCE_DIR=f"/tmp/seed-evidence-{os.getpid()}")
     meta = {"seed_id": sid, "property": prop, "source": str(out), "ran": [], "base": sh("git rev-parse --short HEAD", cwd=wt)[1].strip()}
     old = VERIF / "seeded" / sid / "meta.json"
     prev = json.loads(old.read_text()) if old.exists() else {}
